@@ -146,6 +146,8 @@ pub struct Report {
     new: Mutex<BTreeMap<String, Group>>,
     known_hits: Mutex<BTreeMap<String, (u64, String)>>,
     pub start: Instant,
+    /// set by `finish` when a recorded history does not replay identically twice (machinery error, exit 2)
+    pub nondeterministic: std::sync::atomic::AtomicBool,
 }
 
 impl Report {
@@ -166,6 +168,7 @@ impl Report {
             new: Mutex::new(BTreeMap::new()),
             known_hits: Mutex::new(BTreeMap::new()),
             start: Instant::now(),
+            nondeterministic: std::sync::atomic::AtomicBool::new(false),
         }
     }
 
@@ -227,6 +230,20 @@ impl Report {
             let path = format!("{}/{}-{:016x}.json", dir, self.tier, h);
             let mut j = gr.first.to_json();
             j["instances_in_run"] = json!(gr.count);
+            // Replay the recorded history twice in new contexts before the failure is trusted: the observations must be
+            // identical, otherwise some nondeterminism is not owned by the harness and nothing it says can be believed.
+            let skip = ["hang", "abort", "slow"].iter().any(|k| gr.first.kind.contains(k)) || gr.first.opts.is_none() || gr.first.events.is_empty();
+            if !skip {
+                let a = crate::replay::observe(&j, "confirm-a");
+                let b = crate::replay::observe(&j, "confirm-b");
+                if a != b {
+                    let k = a.iter().zip(b.iter()).position(|(x, y)| x != y).unwrap_or(a.len().min(b.len()));
+                    eprintln!("MACHINERY ERROR: replaying the history of class {} twice gives different observations at event {}: {:?} vs {:?}", gr.first.class, k, a.get(k), b.get(k));
+                    self.nondeterministic.store(true, std::sync::atomic::Ordering::SeqCst);
+                }
+                j["replayed_twice_identical"] = json!(a == b);
+                j["observations_on_replay"] = json!(a);
+            }
             std::fs::write(&path, serde_json::to_string_pretty(&j).unwrap()).expect("write replay");
             // a violation that belongs to another property's monitor is reported under that id
             println!("VIOLATION property={} replay={}", gr.first.property, path);
